@@ -257,13 +257,9 @@ def setup(tf, o1, o2, has_fai, has_agp, ticks):
     return fs
 
 
-def crash_then_load(tf: int, o1: int, o2: int, has_fai: bool, has_agp: bool, t0: int, t1: int, t2: int, t3: int, cp: int, fl: int, del_fai: bool, del_agp: bool) -> bool:
-    """
-    pre: tf >= 100 and o1 >= 1 and o2 >= 1
-    pre: t0 >= 0 and t1 >= 0 and t2 >= 0 and t3 >= 0
-    pre: 0 <= cp <= 40 and 0 <= fl <= 12
-    post: _
-    """
+def crash_then_load(tf, o1, o2, has_fai, has_agp, t0, t1, t2, t3, cp, fl, del_fai, del_agp):
+    # NOTE: deliberately NO contract here: CrossHair enforces the contract of a called
+    # function and silently ignores paths on which the CALLEE's postcondition fails
     START()
     fs = setup(tf, o1, o2, has_fai, has_agp, [t0, t1, t2, t3])
     # an indexing run interrupted before file-system operation number cp (cp >= its length: not interrupted)
@@ -436,12 +432,6 @@ def reader_vs_writer_11(i0: int, i1: int, i2: int, i3: int, i4: int, i5: int, i6
     return reader_vs_writer(True, True, [i0, i1, i2, i3, i4, i5, i6, i7])
 
 
-def reader_vs_writer_all(has_fai: bool, has_agp: bool, i0: int, i1: int, i2: int, i3: int, i4: int, i5: int, i6: int, i7: int) -> bool:
-    """
-    pre: 0 <= i0 <= 30 and 0 <= i1 <= 30 and 0 <= i2 <= 30 and 0 <= i3 <= 30 and 0 <= i4 <= 30 and 0 <= i5 <= 30 and 0 <= i6 <= 30 and 0 <= i7 <= 30
-    post: _
-    """
-    return reader_vs_writer(has_fai, has_agp, [i0, i1, i2, i3, i4, i5, i6, i7])
 '''
 
 def _mk_crash_variants():
